@@ -670,6 +670,12 @@ class _Rename(ast.NodeTransformer):
                 ast.Name(id=self.rename[node.id], ctx=node.ctx), node)
         return node
 
+    def visit_ExceptHandler(self, node):
+        # `except E as name`: the bound name is a plain string
+        if node.name and node.name in self.rename:
+            node.name = self.rename[node.name]
+        return self.generic_visit(node)
+
     def visit_FunctionDef(self, node):
         return node             # nested definitions keep their own scope
 
